@@ -320,7 +320,9 @@ def render_and_load(mutations, app_module, evolver_factory):
         evolver = evolver_factory()
         task = EvolveAppTask(evolver, app=app_module,
                              evolutions=[{'label': 'h1', 'mutations': list(mutations)}])
+        obs['stage'] = 'prepare'
         task.prepare(hinted=False)
+        obs['stage'] = 'content'
         text = task.get_evolution_content()
         obs['text'] = text
     except Exception as e:
